@@ -17,7 +17,7 @@ TABLE = {
     'C03': ('§6 C03', False, 'frame theorems: everything the message does not name (by tag and non-blank ID) is identical and keeps its relative order, at root, roCreate and story level; a blank or unknown reference names nothing; composed along histories: what no message of a history names is identical and in order at the end (C03_history)', ''),
     'C04': ('§6 C04', False, 'carried stories/items arrive deep-equal, contiguous and in message order; roStorySend arrives as pre ++ body-children(retagged) ++ post; roReplace content becomes the roCreate; carried metadata present', ''),
     'C05': ('§6 C05', False, 'for every message of every class and shape and every running order: if the model\'s merge ends in MosMergeError/MosCompletedMergeError the tree is the tree it was given; lifted to non-strict histories; C05_total: for EVERY running order and EVERY message with a readable messageID, any exception at all (merge error or built-in) leaves the tree unchanged', ''),
-    'C06': ('§6 C06', False, 'the model either raises MosMergeError or emits exactly one warning of the documented category per unresolvable/duplicate element, in message order, and applies every other named element', ''),
+    'C06': ('§6 C06', False, 'the model either raises MosMergeError or emits exactly one warning of the documented category per unresolvable/duplicate element, in message order, and applies every other named element - for any container, blank and repeated IDs included (one occurrence per mention)', ''),
     'C07': ('§6 C07', False, 'roDelete marks completion and appends exactly one record; a completed running order refuses every message unchanged (step and history); no other class completes; completed documents classify as RunningOrder', ''),
     'C08': ('§6 C08', True, 'classification of the model depends only on the direct message-element children; total: never a built-in exception; the roElementAction table is decided by (operation, target has itemID, source has itemID)', 'expat well-formedness decisions (MosInvalidXML), independence from the warning filter, file/str/bytes equivalence: differential execution'),
     'C09': ('§6 C09', False, 'the collection merge loop equals the left fold of add over the sorted messages; strict stops at the first error with the prefix applied; non-strict skips exactly the failing messages with one MosMergeNonStrictWarning each', ''),
@@ -26,7 +26,7 @@ TABLE = {
     'C12': ('§6 C12', False, 'on well-formed running orders and schema-shaped messages the model never yields a built-in exception; well-formedness is preserved by merges so the statement composes along histories', ''),
     'C13': ('§6 C13', True, 'on the labelled-tree aliasing model: copies carry fresh labels, mutations of running-order objects cannot change a message, separation is invariant over every history of copy-inserting merges, and under separation the labelled run projects onto the value-level run', 'object identity in CPython (id()-disjointness monitor on the real code)'),
     'C14': ('§6 C14', True, 'character-level round trip: every tree with valid names and CR-free non-empty character data reads back from its serialisation as exactly itself (model lexer + tree builder); token-level round trip for any tree; escaping round trips; envelope invariant (running-order element count, message ID, at most one completion record) along every history; the running-order ID is kept by messages addressed to it', 'that ElementTree\'s parser reads the serialiser\'s output as the model\'s lexer does, and that str(ro) is byte for byte the model\'s serialisation: compared at every explored state; one open known finding (U+000D in character data, stdlib serialiser)'),
-    'C15': ('§6 C15', False, 'on running orders whose stories/items have IDs and whose optional data is numeric/parseable, no accessor of the model raises; stories/items are listed in document order; every item field incl. the note (first studioCommand type=note at any depth) agrees with the document; absent data is None', ''),
+    'C15': ('§6 C15', False, 'on running orders whose stories/items have IDs and whose optional data is numeric/parseable, no accessor of the model raises; stories/items are listed in document order; every item field incl. the note (first studioCommand type=note at any depth) agrees with the document; absent data is None; the check also demands the C16 and C17 specifications (timing, script and body are read accessors too)', ''),
     'C16': ('§6 C16', False, 'duration precedence, running-order duration = sum, offsets = prefix sums by position (repeated story IDs or not), start/end derivations incl. zone designators, over exact microseconds (decimal durations with up to six decimals); the code\'s element-keyed offset dictionary equals the positional table whenever no story element occurs twice (C16_offsets_by_element, tied to C13\'s separation), and differs otherwise (counterexample theorem)', ''),
     'C17': ('§6 C17', False, 'body = paragraphs and items in document order; script = stripped non-empty non-bracketed paragraphs in order; running-order script/body = concatenation over stories', ''),
     'C18': ('§6 C18', True, 'paginated listing returns every key with the suffix across all pages (no empty page before a non-empty one); reader metadata is that of the restored object', 'real file I/O, bytes decoding, boto3 protocol: differential execution through an injected fake client'),
